@@ -371,6 +371,23 @@ class ActMonitor:
                     run.res.probe("acting_on_current_obs")
         if custom is not None:
             return
+        if "C13.a" in cl and env.discrete and "q" in run.comps:
+            # independent of any probe: the LIVE online network, evaluated now on the current observation
+            import jax.numpy as jnp
+
+            ql = np.asarray(run.comps["q"](jnp.asarray(env.cur_obs)[None]))[0]
+            if ql[int(a)] < ql.max() - 1e-5 * (1 + abs(ql.max())):
+                run.V("C13.a", f"step {k}: no exploration sample was drawn, yet action {int(a)} is not greedy for the live Q-network on the current observation: Q={ql}")
+            else:
+                run.res.probe("greedy_wrt_live_network")
+        if unb and "C10.e" in cl and not env.discrete and getattr(run.adapter, "tanh_actor", False):
+            outp = np.asarray(unb[-1][2], dtype=np.float64).reshape(-1)
+            lo64, hi64 = env.action_space.low.astype(np.float64), env.action_space.high.astype(np.float64)
+            ulp = np.spacing(np.maximum(np.abs(lo64), np.abs(hi64)).astype(np.float32)).astype(np.float64)
+            if outp.shape == lo64.shape and (np.any(outp < lo64 - 2 * ulp) or np.any(outp > hi64 + 2 * ulp)):
+                run.V("C10.e", f"step {k}: the deterministic tanh policy's own output {outp} lies outside the action box [{lo64}, {hi64}] (beyond rounding of the bound)")
+            elif outp.shape == lo64.shape:
+                run.res.probe("tanh_policy_output_in_box")
         if unb and "C13.a" in cl and env.discrete:
             q = np.asarray(unb[-1][2]).reshape(-1)
             if q[int(a)] < q.max() - 1e-6 * (1 + abs(q.max())):
